@@ -197,6 +197,10 @@ func (t DataType) goValue(endian binary.ByteOrder, bs []byte) (interface{}, erro
 			return nil, nil
 		}
 
+		if len(bs) != 4 {
+			return nil, fmt.Errorf("invalid length for %v: %d", t, len(bs))
+		}
+
 		x := int32(endian.Uint32(bs))
 		days := asetime.ASEDuration(x) * asetime.Day
 		return asetime.Epoch1900().AddDate(0, 0, days.Days()), nil
@@ -246,6 +250,10 @@ func (t DataType) goValue(endian binary.ByteOrder, bs []byte) (interface{}, erro
 	case BIGDATETIMEN:
 		if len(bs) == 0 {
 			return nil, nil
+		}
+
+		if len(bs) != 8 {
+			return nil, fmt.Errorf("invalid length for %v: %d", t, len(bs))
 		}
 
 		dur := asetime.ASEDuration(endian.Uint64(bs))
